@@ -412,7 +412,7 @@ struct subarray_ptr  // NOLINT(fuchsia-multiple-inheritance) : to allow mixin CR
 
 	template<typename, multi::dimensionality_type, typename, class> friend struct const_subarray;
 
-	BOOST_MULTI_HD constexpr auto base() const -> typename reference::element_ptr {return base_;}
+	BOOST_MULTI_HD constexpr auto base() const -> std::conditional_t<IsConst, typename reference::element_const_ptr, typename reference::element_ptr> {return base_;}
 
 	friend BOOST_MULTI_HD constexpr auto base(subarray_ptr const& self) {return self.base();}
 
